@@ -28,7 +28,7 @@ Definition show_msgss (l : list (list msg)) : string := sjoin "|" (map show_msgs
 Definition show_err (e : err) : string :=
   match e with BarErr => "BarErr" | SeqErr => "SeqErr" | TokErr => "TokErr" | KeyErr => "KeyErr"
   | IndexErr => "IndexErr" | ValueErr => "ValueErr" | TypeErr => "TypeErr" | OutOfFuel => "OutOfFuel"
-  | OutOfModel => "OutOfModel" end.
+  | OutOfModel => "OutOfModel" | TrackErr => "TrackErr" end.
 Definition show_res {A} (f : A -> string) (r : result A) : string :=
   match r with Ok a => f a | Err e => "!" ++ show_err e end.
 Definition show_opt {A} (f : A -> string) (o : option A) : string :=
